@@ -217,19 +217,28 @@ func (c *XMLCodec) Unmarshal(data []byte, v interface{}) error {
 	return xml.Unmarshal(data, v)
 }
 
+//ErrorBYTES is the error that v is not *[]byte
+var ErrorBYTES = errors.New("is not *[]byte")
+
 // BYTESCodec struct
 type BYTESCodec struct {
 }
 
 // Marshal returns the BYTES encoding of v.
 func (c *BYTESCodec) Marshal(buf []byte, v interface{}) ([]byte, error) {
-	return *v.(*[]byte), nil
+	if p, ok := v.(*[]byte); ok && p != nil {
+		return *p, nil
+	}
+	return nil, ErrorBYTES
 }
 
 // Unmarshal parses the BYTES-encoded data and stores the result in the value pointed to by v.
 func (c *BYTESCodec) Unmarshal(data []byte, v interface{}) error {
-	*v.(*[]byte) = data
-	return nil
+	if p, ok := v.(*[]byte); ok && p != nil {
+		*p = data
+		return nil
+	}
+	return ErrorBYTES
 }
 
 // GoGoProtobuf defines the interface for gogo's protobuf.
